@@ -187,7 +187,8 @@ def run_impl_one(c):
     ck = c.get("checker")
     if ck:
         kw["relationship_checker"] = {"sync": SyncChecker, "async": AsyncChecker, "raising": RaisingChecker}[ck]()
-    sink, metrics = Sink(fail=bool(c.get("sinks_fail"))), Metrics(fail=bool(c.get("sinks_fail")))
+    sf = c.get("sinks_fail")      # True / "both": both sinks raise; "metrics" / "log": only that one raises
+    sink, metrics = Sink(fail=sf in (True, "both", "log")), Metrics(fail=sf in (True, "both", "metrics"))
     kw["logger_sink"], kw["metrics"] = sink, metrics
     if c.get("cache"):
         kw["cache"] = DefaultInMemoryCache(64)
@@ -213,8 +214,118 @@ def run_impl_one(c):
             tables.append(copy.deepcopy(table))
 
     asyncio.run(go())
+    warm = []
+    if c.get("warm", True):
+        try:
+            warm = _warm_runs(c, kw, subj, act, res, ctx, SyncChecker, AsyncChecker, RaisingChecker)
+        except Exception as e:  # noqa: BLE001  (harness trouble must not masquerade as a verdict)
+            warm = [{"how": "harness-error", "decision": ["HarnessError", repr(e)[:200]]}]
     return {"decisions": decisions, "tables": tables, "payloads": sink.payloads, "incs": metrics.incs,
-            "resolved": resolved, "policy_unchanged": pol_before == c["policy"]}
+            "resolved": resolved, "policy_unchanged": pol_before == c["policy"], "warm": warm}
+
+
+DECOY_RULE = {"id": "zz_decoy", "effect": "permit", "actions": ["*"], "resource": {}}
+
+
+def _siblings(req):
+    """requests differing from req in one place (attributes, id, type, action, roles, context)"""
+    out = []
+    for attrs in ({}, {"k": 2}, {"k": "1"}, {"k": 1, "extra": True}):
+        if attrs != (req["resource"].get("attrs") or {}):
+            out.append({**req, "resource": {**req["resource"], "attrs": attrs}})
+    out.append({**req, "resource": {**req["resource"], "id": "other-id"}})
+    out.append({**req, "resource": {**req["resource"], "type": "img" if req["resource"].get("type") != "img" else "doc"}})
+    out.append({**req, "action": "write" if req.get("action") != "write" else "read"})
+    out.append({**req, "subject": {**req["subject"], "roles": ["admin"] if req["subject"].get("roles") != ["admin"] else []}})
+    out.append({**req, "context": {"mfa": True, "n": 5} if req.get("context") != {"mfa": True, "n": 5} else {}})
+    return out
+
+
+def _warm_runs(c, kw, subj, act, res, ctx, SyncChecker, AsyncChecker, RaisingChecker):
+    """the same request on engines with a past: (1) after sibling requests on the same Guard, (2) after the
+    policy object was edited in place and re-installed with set_policy(same object), (3) after set_policy(fresh
+    object) on a Guard created with another policy.  Every one must give the decision of a fresh Guard."""
+    from rbacx.core.cache import DefaultInMemoryCache
+    from rbacx.core.engine import Guard
+    from rbacx.core.model import Action, Context, Resource, Subject
+
+    def mk(policy):
+        kw2 = {k: v for k, v in kw.items() if k in ("role_resolver",)}
+        ck = c.get("checker")
+        if ck:
+            kw2["relationship_checker"] = {"sync": SyncChecker, "async": AsyncChecker, "raising": RaisingChecker}[ck]()
+        if c.get("cache"):
+            kw2["cache"] = DefaultInMemoryCache(64)
+        return Guard(policy, strict_types=bool(c.get("strict")), **kw2)
+
+    def objs(r):
+        return (Subject(id=r["subject"].get("id"), roles=list(r["subject"].get("roles") or []), attrs=dict(r["subject"].get("attrs") or {})),
+                Action(r.get("action")),
+                Resource(type=r["resource"].get("type"), id=r["resource"].get("id"), attrs=dict(r["resource"].get("attrs") or {})),
+                Context(attrs=dict(r.get("context") or {})))
+
+    def dec(d):
+        return {"allowed": d.allowed, "effect": d.effect, "obligations": d.obligations, "challenge": d.challenge,
+                "rule_id": d.rule_id, "policy_id": d.policy_id, "reason": d.reason}
+
+    pol = c["policy"]
+    if "policies" in pol:
+        decoy = {**copy.deepcopy(pol), "policies": [{"id": "zz_decoy_pol", "algorithm": "permit-overrides",
+                                                      "rules": [copy.deepcopy(DECOY_RULE)]}] + copy.deepcopy(pol.get("policies") or [])}
+        key = "policies"
+    else:
+        decoy = {**copy.deepcopy(pol), "rules": [copy.deepcopy(DECOY_RULE)] + copy.deepcopy(pol.get("rules") or [])}
+        key = "rules"
+    out = []
+
+    async def go():
+        # (1) siblings first
+        g = mk(copy.deepcopy(pol))
+        for sreq in _siblings(c["req"]):
+            try:
+                await g.evaluate_async(*objs(sreq))
+            except Exception:  # noqa: BLE001
+                pass
+        try:
+            out.append({"how": "after sibling requests on the same Guard", "decision": dec(await g.evaluate_async(subj, act, res, ctx))})
+        except Exception as e:  # noqa: BLE001
+            out.append({"how": "after sibling requests on the same Guard", "decision": ["Raise", type(e).__name__]})
+        # (2) in-place edit + set_policy(same object)
+        obj = copy.deepcopy(decoy)
+        g = mk(obj)
+        try:
+            await g.evaluate_async(subj, act, res, ctx)
+        except Exception:  # noqa: BLE001
+            pass
+        if isinstance(obj.get(key), list) and obj[key]:
+            del obj[key][0]
+        g.set_policy(obj)
+        try:
+            out.append({"how": "after an in-place edit of the policy object and set_policy(same object)",
+                        "decision": dec(await g.evaluate_async(subj, act, res, ctx))})
+        except Exception as e:  # noqa: BLE001
+            out.append({"how": "after an in-place edit of the policy object and set_policy(same object)", "decision": ["Raise", type(e).__name__]})
+        # (3) set_policy(fresh object)
+        g = mk(copy.deepcopy(decoy))
+        try:
+            await g.evaluate_async(subj, act, res, ctx)
+        except Exception:  # noqa: BLE001
+            pass
+        g.set_policy(copy.deepcopy(pol))
+        try:
+            out.append({"how": "after set_policy(fresh object) on a Guard created with another policy",
+                        "decision": dec(await g.evaluate_async(subj, act, res, ctx))})
+        except Exception as e:  # noqa: BLE001
+            out.append({"how": "after set_policy(fresh object) on a Guard created with another policy", "decision": ["Raise", type(e).__name__]})
+
+    asyncio.run(go())
+    return out
+
+
+def warm_decisions(impl):
+    """[(tag, decision)] for the judges: cold/cached decisions first, then the warm ones"""
+    return [(" [cache hit]" if k else "", d) for k, d in enumerate(impl["decisions"])] + \
+           [(" [engine with a past: %s]" % w["how"], w["decision"]) for w in impl.get("warm", [])]
 
 
 def _shard(cases):
